@@ -183,7 +183,7 @@ def parse_kani_log(path):
     m = re.search(r"Verification Time: ([\d.]+)s", txt)
     st["kani_s"] = float(m.group(1)) if m else 0.0
     res["stubs"] = len(re.findall(r"^\s*- Stub: ", txt, re.M))
-    res["oom"] = bool(re.search(r"Status: ERROR|std::bad_alloc|Out of memory|SIGKILL|memory exhausted", txt))
+    res["oom"] = bool(re.search(r"Status: ERROR|std::bad_alloc|Out of memory|SIGKILL|memory exhausted|run out of memory|ran out of memory|CBMC failed", txt))
     res["compile_error"] = bool(re.search(r"^error(\[E\d+\])?:", txt, re.M)) and res["status"] is None
     return res
 
